@@ -15,7 +15,7 @@ fn corpus() -> Vec<&'static str> {
          "\"abc", "#\\", "#(1 2", "(a . )", ")", "#u8(300)", "1e", "#x", "a)b",
          "\"\u{e9}\\x01\"", "\"\u{e9}\\xff\"", "\"\\x01\u{e9}\"", "\"\u{e9}\\001\"", "\"a\u{e9}\\nb\"", "\"\\u00e9\\xff\"", "\"\u{e9}\\x01\u{e9}\"", "\"\\351\u{e9}\"", "\"\u{e9}\\^A\"", "\"\\M-a \u{e9}\"", "\"\u{3bb}\\n\"", "\"\u{3bb}\\x41\"", "(\"\u{1f600}\\101\" \"\\x80\")",
          "#\\newline #\\tab #\\backspace #\\nul #\\delete #\\alarm #\\return #\\escape", "#\\tab", "#\\\u{3bb} ?\u{3bb}", "\u{e9}t\u{e9} (\u{1f600})",
-         "(18446744073709551616)", "184467440737095516160 x", "18446744073709551616.5", "#xFFFFFFFFFFFFFFFFF y", "(1 99999999999999999999999e3 2)", "-18446744073709551617", "(123456789012345678901234567890 . a)"]
+         "(18446744073709551616)", "184467440737095516160 x", "18446744073709551616.5", "#xFFFFFFFFFFFFFFFFF y", "(1 99999999999999999999999e3 2)", "#:foo", "(#:k :k k:)", "?a", "#(#:a)", "-18446744073709551617", "(123456789012345678901234567890 . a)"]
 }
 
 struct Sched { data: Vec<u8>, pos: usize, chunk: usize, interrupt_every: usize, calls: usize, fail_at: Option<usize>, fail_kind: io::ErrorKind }
@@ -70,6 +70,21 @@ fn check(case: &str) -> Option<String> {
         "same" | "samex" => {
             let sl = show(&all(parse::Parser::from_slice_custom(text.as_bytes(), opts(oi))));
             if sl != full { return Some(format!("{:?}: str gives {}, slice gives {}", text, full, sl)); }
+            // the one-shot entry points and the parser constructors without explicit options, per source kind
+            let one = |r: Result<lexpr::Value, parse::Error>| match r { Ok(v) => format!("Ok({})", v), Err(e) => format!("Err({:?})", e.classify()) };
+            let oned = |r: Result<lexpr::datum::Datum, parse::Error>| match r { Ok(d) => format!("Ok({})", d.value()), Err(e) => format!("Err({:?})", e.classify()) };
+            let b = text.as_bytes();
+            let groups: Vec<(&str, Vec<String>)> = if oi == 0 { vec![
+                ("from_str / from_slice / from_reader", vec![one(lexpr::from_str(text)), one(lexpr::from_slice(b)), one(lexpr::from_reader(b))]),
+                ("datum::from_str / from_slice / from_reader", vec![oned(lexpr::datum::from_str(text)), oned(lexpr::datum::from_slice(b)), oned(lexpr::datum::from_reader(b))]),
+                ("Parser::from_str / from_slice / from_reader", vec![show(&all(parse::Parser::from_str(text))), show(&all(parse::Parser::from_slice(b))), show(&all(parse::Parser::from_reader(b)))]),
+                ("from_str_custom(default) / from_str", vec![one(lexpr::from_str_custom(text, Options::default())), one(lexpr::from_str(text))]),
+            ] } else { vec![
+                ("from_str_elisp / from_slice_elisp / from_reader_elisp", vec![one(lexpr::parse::from_str_elisp(text)), one(lexpr::parse::from_slice_elisp(b)), one(lexpr::parse::from_reader_elisp(b))]),
+                ("datum::from_str_elisp / from_slice_elisp / from_reader_elisp", vec![oned(lexpr::datum::from_str_elisp(text)), oned(lexpr::datum::from_slice_elisp(b)), oned(lexpr::datum::from_reader_elisp(b))]),
+                ("from_str_custom(elisp) / from_str_elisp", vec![one(lexpr::from_str_custom(text, Options::elisp())), one(lexpr::parse::from_str_elisp(text))]),
+            ] };
+            for (name, rs) in groups { if rs.iter().any(|x| x != &rs[0]) { return Some(format!("{:?}: the entry points {} give {:?}", text, name, rs)); } }
             for (chunk, intr) in [(1usize, 0usize), (1, 2), (2, 3), (3, 0), (64, 0)] {
                 let rd = Sched { data: text.as_bytes().to_vec(), pos: 0, chunk, interrupt_every: intr, calls: 0, fail_at: None, fail_kind: io::ErrorKind::Other };
                 let io = show(&all(parse::Parser::from_reader_custom(rd, opts(oi))));
